@@ -56,7 +56,7 @@ func genSize(t *rapid.T, max int64, label string) int64 {
 }
 
 var mutOps = []string{"none", "none", "flip-proof-bit", "drop", "dup", "swap", "append", "prepend", "reverse", "truncate-all",
-	"index-delta", "index-set", "t-delta", "t-set", "n-set", "flip-leaf", "flip-root", "flip-old-root", "other-proof", "cross-kind", "swap-sizes", "zero-root", "zero-leaf", "zero-roots"}
+	"index-delta", "index-set", "t-delta", "t-set", "n-set", "flip-leaf", "flip-root", "flip-old-root", "other-proof", "cross-kind", "swap-sizes", "zero-root", "zero-leaf", "zero-roots", "same-odd-sizes"}
 
 var oddSizes = []int64{0, -1, -5, 1 << 62, 1<<62 + 1, 1<<63 - 1, -1 << 63, 1, 2}
 
@@ -195,6 +195,13 @@ func check(c proofCase) pbt.Result {
 	}
 	for _, m := range muts {
 		switch m.Op {
+		case "same-odd-sizes":
+			// both sizes the same out-of-range (or degenerate) value, equal hashes, no proof
+			t, n = m.Delta, m.Delta
+			if !isTree {
+				n = m.Delta - 1
+			}
+			proof, leaf = nil, root
 		case "zero-root":
 			root = tlog.Hash{}
 		case "zero-leaf":
